@@ -167,6 +167,44 @@ def run_family(acc, job, fam, present):
                             acc.violate(case, {'kind': kd, 'oracle': 'region-graph', 'pclass': pclass, 'derived_region_potentials': pclass == 'b' and len(regions) > len(maximal)},
                                         'cliques %r: %s' % (cliques, msg))
     # ---------------- factor graph (loopy BP) ----------------
+    # attribute names as equal-but-distinct string objects in the domain and in the cliques (names read from a file, built by
+    # formatting, ...): equality, not identity, must decide
+    if present == 'sorted':
+        mk = lambda a: ''.join(['attr', '_', a.lower()])
+        attrs_u = [mk(a) for a in attrs]
+        dom_u = Domain(attrs_u, sizes)
+        cliques_u = [tuple(mk(a) for a in c) for c in cliques]
+        assert all(x is not y for x, y in zip(attrs_u, [a for a in map(mk, attrs)]))
+        rng = np.random.RandomState((seedbase + 5) % 2 ** 31)
+        for orc in ('fg', 'rg'):
+            if orc == 'rg' and not is_antichain:
+                continue
+            obj = FactorGraph(dom_u, list(cliques_u), total=10.0, convex=False, iters=60) if orc == 'fg' else \
+                RegionGraph(dom_u, list(cliques_u), total=10.0, convex=False, iters=60)
+            regs = list(cliques_u) if orc == 'fg' else list(obj.cliques)
+            pots = potentials_for(dom_u, regs, set(cliques_u), 1.0, rng)
+            mu = obj.belief_propagation(pots)
+            case = {'oracle': 'factor-graph' if orc == 'fg' else 'region-graph', 'k': k, 'fam': [list(c) for c in fam], 'present': present, 'names': 'uninterned',
+                    'seed': job['seed'], 'tier': job['tier']}
+            acc.case(case, nontrivial=len(cliques) >= 2)
+            acc.states += 1
+            acc.transitions += 1
+            acc.traces += 1
+            fails = []
+            what = '%s with equal-but-distinct name objects' % ('FactorGraph' if orc == 'fg' else 'RegionGraph')
+            validity(mu, regs, 10.0, what, fails)
+            if not fails and ((orc == 'fg' and forest) or (orc == 'rg' and rip)):
+                exactness(mu, pots, regs, attrs_u, sizes, 10.0, what, fails)
+            acc.outcome('names:%s' % ('ok' if not fails else 'FAIL'))
+            for kd, msg in fails:
+                acc.violate(case, {'kind': kd, 'oracle': case['oracle'], 'names': 'uninterned'}, 'cliques %r: %s' % (cliques, msg))
+            # the total is a public attribute (LocalInference assigns it on a user-supplied oracle): a later call must honour the new value
+            obj.total = 2.5
+            mu = obj.belief_propagation(pots)
+            fails = []
+            validity(mu, regs, 2.5, what + ' after total was reassigned 10 -> 2.5', fails)
+            for kd, msg in fails:
+                acc.violate(dict(case, total_reassigned=True), {'kind': kd, 'oracle': case['oracle'], 'total_reassigned': True}, 'cliques %r: %s' % (cliques, msg))
     diam = 2 * (len(cliques) + k) + 2
     for total, scale in ((1.0, 1.0), (10.0, 50.0)) if job['tier'] == 'quick' else ((1.0, 1.0), (10.0, 50.0), (1.0, 50.0), (10.0, 1.0)):
         if True:
@@ -273,7 +311,7 @@ def replay(case):
     fam = tuple(tuple(c) for c in case['fam'])
     with M.quiet():
         run_family(acc, {'k': case['k'], 'seed': case['seed'], 'tier': case['tier']}, fam, case['present'])
-    want = {k: case.get(k) for k in ('oracle', 'minimal', 'total', 'pclass', 'iters', 'calls', 'scale')}
+    want = {k: case.get(k) for k in ('oracle', 'minimal', 'total', 'pclass', 'iters', 'calls', 'scale', 'names', 'total_reassigned')}
     vs = [v for v in acc.violations if all(v['case'].get(k) == x for k, x in want.items())]
     if not vs and acc.nviol > len(acc.violations):
         vs = acc.violations[:1]
